@@ -256,6 +256,9 @@ def legs(tier):
     out.append(Leg('states_N1', fn_states, [[1, i] for i in range(48)], chunk=6, src_states=48, bound='all 48 tableaux x 8 generators'))
     out.append(Leg('states_N2', fn_states, [[2, i] for i in range(34560)], chunk=80, src_states=34560,
                    bound='all 34560 tableaux x (32 generators + 16 masked 1-qubit generators)'))
+    from .c03 import fn_rotmap
+    out.append(Leg('rotation_map_histories', fn_rotmap, [[N, gi] for N in (1, 2, 3) for gi in range(4 ** N)], chunk=4,
+                   bound='all Hermitian generators N<=3: clifford_rotation_map(G) vs rotate_by(G) vs U^dag P U on the whole group; history: mutate the returned map in place, request it again'))
     tN = (1, 2) if tier == 'quick' else (1, 2, 3)
     out.append(Leg('torch_operators', fn_ops, [[N, gi, 'torch'] for N in tN for gi in range(4 ** N)], chunk=2,
                    bound='torchclifford N in %s: all generators x whole group' % (tN,)))
